@@ -1,6 +1,6 @@
 \* as built (pinned tree): TLC is EXPECTED to violate PointerSemanticsIsValueSemantics
 CONSTANTS DeepCopyRebindsParents = FALSE CopyHookBoundToCopy = FALSE FlattenCopiesTop = FALSE
-          Universe = "full" MaxTrees = 3 MaxOps = 4
+          Lib = "flat" Universe = "full" MaxTrees = 3 MaxOps = 4
 INIT Init
 NEXT Next
 VIEW ViewFull
